@@ -96,6 +96,8 @@ func expandArgs(spec string) ([][]int, error) {
 	return out, nil
 }
 
+var solverKindGlobal = "z3-new"
+
 func cmdCheck(args []string) int {
 	if len(args) < 1 {
 		usage()
@@ -105,9 +107,10 @@ func cmdCheck(args []string) int {
 	tier := fs.String("tier", "", "quick or thorough")
 	workers := fs.Int("workers", runtime.NumCPU(), "workers")
 	only := fs.String("only", "", "regex: run only matching harness functions (no evidence written)")
-	solverKind := fs.String("solver", "z3", "solver")
+	solverKind := fs.String("solver", "z3-new", "solver")
 	verbose := fs.Bool("v", false, "verbose")
 	fs.Parse(args[1:])
+	solverKindGlobal = *solverKind
 	if *tier == "" {
 		*tier = os.Getenv("VERIF_TIER")
 	}
@@ -548,7 +551,7 @@ func writeEvidence(prop, tier string, seed int, spec CheckSpec, results []*JobRe
 		"functions_encoded":             fnames,
 		"engine_intrinsics_used":        enames,
 		"bounds":                        bounds,
-		"solver":                        map[string]interface{}{"name": "z3 4.8.12 (z3 -in, one process per worker)", "queries_sent": queries, "sat": sat, "unsat": unsat, "unknown": unknown, "cache_hits": cacheHits, "syntactic_unsat": trivialUnsat, "solver_seconds": round1(solverSec)},
+		"solver":                        map[string]interface{}{"name": solverKindGlobal + " (-in -smt2, one process per worker)", "queries_sent": queries, "sat": sat, "unsat": unsat, "unknown": unknown, "cache_hits": cacheHits, "syntactic_unsat": trivialUnsat, "solver_seconds": round1(solverSec)},
 		"cover_points":                  covers,
 		"findings":                      viol,
 		"known_findings_reproduced":     kn,
